@@ -23,7 +23,7 @@ PLAN = {
 # second round (C, D): by default the seed's own property; neighbours are added by hand below
 PLAN.update({"C04D": "C04 C01 C03", "C10C": "C10 C12", "C02C": "C02 C06 C08", "C03D": "C03 C01 C05"})
 for _p in range(1, 21):
-    for _x in "CDEFGHIJKLMNOPQR":
+    for _x in "CDEFGHIJKLMNOPQRST":
         PLAN.setdefault(f"C{_p:02d}{_x}", f"C{_p:02d}")
 
 
